@@ -17,8 +17,9 @@ SHARDS = {"quick": 8, "thorough": 16}
 RULE = ("cases = (comment style out of 11, line ending, entry point out of 11 "
         "text-carrying API calls, text built from arbitrary unicode plus "
         "hostile fragments: LF, CR, CRLF, the style's opening/closing "
-        "delimiters, ';', parentheses, G-code payloads, format-string "
-        "fragments, non-ASCII); non-trivial = the text contains a line break "
+        "delimiters (also nested inside themselves), ';', parentheses, G-code "
+        "payloads, format-string fragments, non-ASCII; optionally the same text "
+        "was used before on the same builder under another style); non-trivial = the text contains a line break "
         "or the closing delimiter of the active style; distinct by SHA-1")
 ASSUMPTIONS = [
     "a controller ends a block (and therefore a comment) at any raw CR or LF",
@@ -72,12 +73,23 @@ def executable(data, style):
     return out
 
 
-def run_entry(style, eol, entry, text):
+def run_entry(style, eol, entry, text, prev_style=None):
     import gscrib
     cfg_eol, _ = eol_of(eol)
-    g = gscrib.GCodeBuilder(comment_symbols=style, line_endings=cfg_eol)
+    g = gscrib.GCodeBuilder(comment_symbols=prev_style or style, line_endings=cfg_eol)
     rec = recorder_class()()
     g.add_writer(rec)
+    if prev_style is not None:
+        # the same text was already used on this builder under another comment
+        # style; then the style is changed (a formatter must not remember it)
+        _emit(g, entry, text)
+        g.format.set_comment_symbols(style)
+        del rec.data[:]
+    _emit(g, entry, text)
+    return bytes(rec.data)
+
+
+def _emit(g, entry, text):
     if entry == "comment":
         g.comment(text)
     elif entry == "comment_args":
@@ -100,18 +112,20 @@ def run_entry(style, eol, entry, text):
         g.rapid_absolute(y=4, comment=text)
     elif entry == "emergency_halt":
         g.emergency_halt(text)
-    return bytes(rec.data)
 
 
 def check(case):
     style, eol, entry, text = case["style"], case["eol"], case["entry"], case["text"]
+    prev = case.get("prev_style")
+    if prev == style:
+        prev = None
     try:
-        base = run_entry(style, eol, entry, "x")
+        base = run_entry(style, eol, entry, "x", prev)
     except Exception as e:
         raise Violation(f"style {style!r}: {entry} with an innocuous comment "
                         f"raised {type(e).__name__}: {e}")
     try:
-        out = run_entry(style, eol, entry, text)
+        out = run_entry(style, eol, entry, text, prev)
     except ValueError:
         return "rejected"
     except Exception as e:
@@ -140,6 +154,8 @@ def classes_of(case):
         cl.append("has_opening_delimiter")
     if any(ord(c) > 127 for c in t):
         cl.append("non_ascii")
+    if case.get("prev_style") and case["prev_style"] != case["style"]:
+        cl.append("style_changed_on_same_builder")
     return cl
 
 
@@ -157,12 +173,23 @@ def strategy():
         "\n", "\r", "\r\n", "\n\n", ";", "(", ")", "[", "]", "{", "}", "<", ">",
         '"', "'", "/*", "*/", "#", "//", "%", "G1 X999", "M3 S1000", "M112",
         " ", "\t", "{}", "{0}", "%s", "\\n", " ", "é", "✓", "\x00", "\x0b"])
-    frag = st.one_of(hostile, hostile, st.text(max_size=6),
-                     st.text(alphabet="GMXYZ0123456789 .-", max_size=8))
-    text = st.lists(frag, min_size=0, max_size=7).map("".join)
-    return st.fixed_dictionaries({
-        "style": st.sampled_from(STYLES), "eol": st.sampled_from(EOLS),
-        "entry": st.sampled_from(ENTRIES), "text": text})
+    def text_for(style):
+        # fragments aimed at the active style: its delimiters, doubled, and the
+        # closing delimiter nested inside itself (c[0] + c + c[1:])
+        close = gcode_lex.BRACKETS.get(style)
+        aimed = [style, style + style, "\n", "\r"]
+        if close:
+            aimed += [close, close + close, close[0] + close + close[1:],
+                      close + " G1 X5 " + style]
+        frag = st.one_of(hostile, st.sampled_from(aimed), st.sampled_from(aimed),
+                         st.text(max_size=6),
+                         st.text(alphabet="GMXYZ0123456789 .-", max_size=8))
+        return st.lists(frag, min_size=0, max_size=7).map("".join)
+
+    return st.sampled_from(STYLES).flatmap(lambda sty: st.fixed_dictionaries({
+        "style": st.just(sty), "eol": st.sampled_from(EOLS),
+        "entry": st.sampled_from(ENTRIES), "text": text_for(sty),
+        "prev_style": st.one_of(st.none(), st.none(), st.sampled_from(STYLES))}))
 
 
 def run_shard(ctx):
